@@ -195,8 +195,19 @@ class Agent(dbus.service.Object):
             self.stop()
             return True
 
-        for hdl in self._handlers:
+        for hdl in tuple(self._handlers):
+            state = hdl.get_session_state()
+            if state == 'ending':
+                # already terminating, it closes by itself
+                continue
+            if state != 'established':
+                # no session to terminate yet
+                hdl.close()
+                continue
             hdl.terminate()
+        if not self._handlers:
+            # stopped when the last one closed
+            return True
         self._logger.info('Waiting on sessions to terminate')
         return False
 
